@@ -237,12 +237,12 @@ class _Visitor:
         return "C"
 
 
-def k_routing(P, tagsets):
+def k_routing(P, tagsets, ids=None, with_names=False):
     """tagsets: list of tag lists, one per operation -> (written groups, client tag tuples)
     groups: [(file path text, canonical tag, [operation indices])]; tuples: [(class, module)]"""
     ee = import_module(P.__name__ + ".emitters.endpoints_emitter")
     cv = import_module(P.__name__ + ".visit.client_visitor")
-    ops = [P.IROperation(operation_id="op%d" % i, method=P.HTTPMethod.GET, path="/p%d" % i, summary=None, description=None,
+    ops = [P.IROperation(operation_id=(ids[i] if ids else "op%d" % i), method=P.HTTPMethod.GET, path="/p%d" % i, summary=None, description=None,
                          parameters=[], request_body=None, responses=[], tags=list(t)) for i, t in enumerate(tagsets)]
     em = ee.EndpointsEmitter.__new__(ee.EndpointsEmitter)
     em.context = _Ctx()
@@ -266,6 +266,9 @@ def k_routing(P, tagsets):
     tuples = [(c, m) for _, c, m in rec.get("tt", [])]
     names = P.core.utils.NameSanitizer
     written = [(names.sanitize_class_name(tag) + "Client", names.sanitize_module_name(tag)) for _, tag, _ in groups]
+    if with_names:
+        # the method name each generator writes is sanitize_method_name(op.operation_id) after the global de-duplication
+        return [[names.sanitize_method_name(ops[i].operation_id) for i in sorted(set(g[2]))] for g in groups]
     return ([(g[0], g[2]) for g in groups], written, tuples)
 
 
@@ -356,14 +359,58 @@ def mk_routing(shape, lens):
     return Routing(shape, lens)
 
 
+class ClientNames(Obligation):
+    """Method names are unique inside every written tag client, whatever tag (first or not) puts two operations together."""
+
+    functions = ["pyopenapi_gen.emitters.endpoints_emitter:EndpointsEmitter._deduplicate_operation_ids_globally",
+                 "pyopenapi_gen.emitters.endpoints_emitter:EndpointsEmitter.emit"]
+    alphabet = ID_ALPHA
+    TAGSETS = {"shared_second": [["x", "c"], ["c"]], "shared_second_rev": [["c"], ["x", "c"]], "both_second": [["x", "c"], ["y", "c"]],
+               "three": [["x", "c"], ["c"], ["c", "x"]]}
+
+    def __init__(self, shape, lens):
+        self.shape, self.lens = shape, tuple(lens)
+        self.name = "client_names/%s/lens=%s" % (shape, "x".join(map(str, lens)))
+        self.bounds = {"tag_assignment": self.TAGSETS[shape], "operationId_lengths": list(lens), "alphabet": "aAbB12_- .{"}
+
+    def make_inputs(self, e):
+        return {"id%d" % i: mk_sym_str(n, "id%d" % i, ID_ALPHA) for i, n in enumerate(self.lens)}
+
+    def _ids(self, inp):
+        return [inp["id%d" % i] for i in range(len(self.lens))]
+
+    def run_sym(self, inp):
+        return call_catching(k_routing, _I(), self.TAGSETS[self.shape], self._ids(inp), True)
+
+    def run_real(self, inp):
+        return call_catching(k_routing, _R(), self.TAGSETS[self.shape], self._ids(inp), True)
+
+    def normalise(self, r):
+        return [[_simp(x) for x in g] for g in r] if isinstance(r, list) else r
+
+    def prop(self, inp, r):
+        if isinstance(r, Raised):
+            return True
+        return all(all(bool(valid_ident(x)) for x in g) and all_distinct(g) for g in r)
+
+    def describe_violation(self, inp, r):
+        return "operationIds %r with tags %r -> method names per client %r (a duplicate name shadows an operation)" % (self._ids(inp), self.TAGSETS[self.shape], self.normalise(r))
+
+
+def mk_client_names(shape, lens):
+    return ClientNames(shape, lens)
+
+
 # ------------------------------------------------------------------ K3
-def k_status(P, code, as_int):
+def k_status(P, code, as_int, sibling=False):
     ops_mod = import_module(P.__name__ + ".core.loader.operations")
     ctx_mod = import_module(P.__name__ + ".core.parsing.context")
     D = hook.SDict if _inst(P) else dict
     key = code if as_int else (hook.symint_to_str(code) if not isinstance(code, int) else str(code))
     resp = D()
     resp[key] = D(description="r")
+    if sibling:
+        resp["default"] = D(description="d")  # a string key next to the (possibly int) status key
     paths = D()
     paths["/x"] = D(get=D(operationId="getx", responses=resp))
     ops = ops_mod.parse_operations(paths, D(), D(), D(), ctx_mod.ParsingContext())
@@ -373,19 +420,19 @@ def k_status(P, code, as_int):
 class StatusKey(Obligation):
     functions = ["pyopenapi_gen.core.loader.operations.parser:parse_operations", "pyopenapi_gen.core.loader.responses.parser:parse_response"]
 
-    def __init__(self, as_int):
-        self.as_int = as_int
-        self.name = "status_key/%s" % ("int" if as_int else "str")
+    def __init__(self, as_int, sibling=False):
+        self.as_int, self.sibling = as_int, sibling
+        self.name = "status_key/%s%s" % ("int" if as_int else "str", "+default" if sibling else "")
         self.bounds = {"status": "symbolic int 100..599", "key_type": "int (YAML unquoted)" if as_int else "str"}
 
     def make_inputs(self, e):
         return {"code": mk_sym_int("code", 100, 599)}
 
     def run_sym(self, inp):
-        return call_catching(k_status, _I(), inp["code"], self.as_int)
+        return call_catching(k_status, _I(), inp["code"], self.as_int, self.sibling)
 
     def run_real(self, inp):
-        return call_catching(k_status, _R(), inp["code"], self.as_int)
+        return call_catching(k_status, _R(), inp["code"], self.as_int, self.sibling)
 
     def normalise(self, r):
         if isinstance(r, tuple) and r[1]:
@@ -396,24 +443,31 @@ class StatusKey(Obligation):
         if isinstance(r, Raised):
             return True
         n, codes = r
-        if n != 1 or not codes or len(codes) != 1:
+        if n != 1 or not codes or len(codes) != (2 if self.sibling else 1):
             return False
         want = hook.symint_to_str(inp["code"]) if not isinstance(inp["code"], int) else str(inp["code"])
-        got = codes[0]
+        got = [c for c in codes if not (isinstance(c, str) and c == "default")]
+        if len(got) != 1:
+            return False
+        got = got[0]
         return len(got) == len(want) and (got == want)
 
     def describe_violation(self, inp, r):
         return "response key %r (%s) -> %r (need one operation carrying that status)" % (inp["code"], "int" if self.as_int else "str", r)
 
 
-def mk_status(as_int):
-    return StatusKey(as_int)
+def mk_status(as_int, sibling=False):
+    return StatusKey(as_int, sibling)
 
 
 # ------------------------------------------------------------------ run
 def specs(tier):
-    out = [(MOD, "mk_status", (True,)), (MOD, "mk_status", (False,))]
+    out = [(MOD, "mk_status", (True,)), (MOD, "mk_status", (False,)), (MOD, "mk_status", (True, True)), (MOD, "mk_status", (False, True))]
     q = tier == "quick"
+    for shape in ClientNames.TAGSETS:
+        k = len(ClientNames.TAGSETS[shape])
+        for lens in ([(1,) * k] if q else [(1,) * k, (2,) * k]):
+            out.append((MOD, "mk_client_names", (shape, lens)))
     for strat in ("operationId", "clean", "path"):
         for lens in ([(1, 1), (2, 1), (2, 2)] if q else [(1, 1), (2, 1), (1, 2), (2, 2), (3, 2), (3, 3)]):
             out.append((MOD, "mk_names", (strat, "two_paths", lens)))
@@ -457,8 +511,10 @@ def replay(path):
         shape = tuple(int(x) for x in parts[1].split("=")[1].split("+"))
         lens = [len(v["inputs"][k]) for k in sorted(v["inputs"])]
         ob = Routing(shape, lens)
+    elif parts[0] == "client_names":
+        ob = ClientNames(parts[1], [len(v["inputs"][k]) for k in sorted(v["inputs"])])
     else:
-        ob = StatusKey(parts[1] == "int")
+        ob = StatusKey(parts[1].startswith("int"), parts[1].endswith("+default"))
     r = ob.run_real(v["inputs"])
     ok = bool(ob.prop(v["inputs"], r))
     print("replay %s inputs=%r -> %r holds=%s" % (v["obligation"], v["inputs"], ob.normalise(r), ok))
